@@ -315,13 +315,12 @@ class Keyword(Object):
 
 
 def strip_digit_separators(number):
-    # Don't strip a _ or , if it's the first character, as _42 and
-    # ,42 aren't valid numbers
-    return (
-        number[0] + number[1:].replace("_", "").replace(",", "")
-        if isinstance(number, str) and len(number) > 1
-        else number
-    )
+    # Don't strip a _ or , that comes before the first digit, as _42,
+    # ,42, and -_42 aren't valid numbers
+    if not isinstance(number, str):
+        return number
+    i = next((i for i, c in enumerate(number) if c in "0123456789"), len(number))
+    return number[:i] + number[i:].replace("_", "").replace(",", "")
 
 
 class Integer(Object, int):
@@ -332,14 +331,16 @@ class Integer(Object, int):
     __match_args__ = ("_as_int",)
 
     def __new__(cls, number, *args, **kwargs):
+        stripped = strip_digit_separators(number)
         return super().__new__(
             cls,
             int(
-                strip_digit_separators(number),
+                stripped,
                 **(
                     {"base": 0}
-                    if isinstance(number, str) and not number.isdigit()
-                    # `not number.isdigit()` is necessary because `base = 0`
+                    if isinstance(stripped, str)
+                    and not stripped.removeprefix("-").removeprefix("+").isdigit()
+                    # The `isdigit` test is necessary because `base = 0`
                     # fails on decimal integers starting with a leading 0.
                     else {}
                 ),
